@@ -90,6 +90,38 @@ def gen_grammars(prop, tier, n, profile):
             if rnd.random() < 0.25: g = newline_term(g, rnd)
             if gg.classify(ref_lr1.build(g)) in ('rr', 'acc'): continue
             add(g)
+    elif profile == 'precedence':   # C05
+        for g in core:
+            if gg.classify(ref_lr1.build(g)) == 'sr': add(g); add(gg.with_precedence(g, rnd))
+        st = gg.grammar_stream(rnd, want_lr1=0.0)
+        while len(out) < n:
+            x = rnd.random()
+            if x < 0.6: g = gg.expr_grammar(rnd)
+            elif x < 0.7: g = gg.dangling_else(rnd)
+            else:
+                g, tb = next(st)
+                if gg.classify(tb) != 'sr': continue
+                g = gg.with_precedence(g, rnd)
+            if gg.classify(ref_lr1.build(g)) in ('rr', 'acc'): continue
+            add(g)
+    elif profile == 'recovery':     # C08
+        for g in gg.err_core(): add(g)
+        st = gg.grammar_stream(rnd, want_lr1=0.9)
+        while len(out) < n:
+            g, tb = next(st)
+            g = gg.add_error_rules(g, rnd)
+            if rnd.random() < 0.3: g = gg.decorate(g, rnd, strings=0.1)
+            if gg.classify(ref_lr1.build(g)) in ('rr', 'acc'): continue
+            add(g)
+    elif profile == 'context':      # C13
+        st = gg.grammar_stream(rnd, want_lr1=0.9)
+        for g in core[:10]: add(gg.decorate(g, rnd, ctx=0.6))
+        while len(out) < n:
+            g, tb = next(st)
+            if rnd.random() < 0.15: g = gg.add_error_rules(g, rnd)
+            g = gg.decorate(g, rnd, ctx=(0.6 if rnd.random() < 0.8 else 0.0))
+            if gg.classify(ref_lr1.build(g)) in ('rr', 'acc'): continue
+            add(g)
     elif profile == 'verbose':    # C16
         for g in core: add(g)
         for g in gg.err_core(): add(g)
@@ -383,6 +415,44 @@ def ctor_reject_worker(case):
         import traceback
         out['incon'].append('ctor worker: ' + traceback.format_exc()[-800:])
     return out
+
+@register('C05')
+def c05(tier):
+    ck = Check('C05', tier)
+    q = tier == 'quick'
+    cfg = {'modes': [0], 'exh_cap': 150 if q else 400, 'exh_len': 5, 'n_rand': 60, 'n_mut': 20, 'long': (30, 100, 400) if q else (100, 400, 1500), 'n_ws': 4, 'n_raw': 2}
+    merge(ck, run_pipeline('C05', tier, gen_grammars('C05', tier, 256 if q else 3000, 'precedence'), cfg))
+    ck.cov['rule'] = ('expression grammars E->E op E|pre E|E post|(E)|atom with random operator sets, precedence (negative/equal values), associativity and explicit [n]; dangling-else shapes; '
+                      'generic grammars with S/R conflicts and random precedence; the dumped table is compared cell by cell with the reference table resolved by the documented rule, '
+                      'operator chains up to hundreds of operators are parsed and the logged derivation is compared with the reference and, for pure binary grammars, with an independent '
+                      'operator-precedence grouping; distinct_nontrivial = distinct accepted (grammar,input) with >= 4 reductions in a grammar with S/R conflicts')
+    ck.assumptions += REF_ASSUME[:1] + ['explicit rule precedence [0] is not generated (indistinguishable from "not given")', 'grammars with R/R conflicts are excluded (documented as undefined)']
+    return ck.finish(floor_events=1000)
+
+@register('C08')
+def c08(tier):
+    ck = Check('C08', tier)
+    q = tier == 'quick'
+    cfg = {'modes': [0, 1], 'exh_cap': 200 if q else 500, 'exh_len': 5, 'n_rand': 40, 'n_mut': 200 if q else 500, 'long': (20, 60) if q else (60, 300), 'n_ws': 6, 'n_raw': 4}
+    merge(ck, run_pipeline('C08', tier, gen_grammars('C08', tier, 160 if q else 2000, 'recovery'), cfg))
+    ck.cov['rule'] = ('grammars with the error symbol in statement-list, bracketed, first/last and nested positions (fixed corpus + error rules added to random LR(1) grammars); inputs: all short strings and '
+                      'derivable inputs with tokens inserted/deleted/replaced/duplicated; observed result, surviving values (functor log), error reports and verbose recovery steps are compared with a '
+                      'reference driver that implements exactly the documented algorithm; distinct_nontrivial = distinct (grammar,input) with at least one syntax error')
+    ck.assumptions += REF_ASSUME
+    return ck.finish(floor_events=1000)
+
+@register('C13')
+def c13(tier):
+    ck = Check('C13', tier)
+    q = tier == 'quick'
+    cfg = {'modes': [0, 20, 21, 22, 23, 24], 'exh_cap': 80 if q else 200, 'exh_len': 4, 'n_rand': 40, 'n_mut': 30, 'long': (30, 300) if q else (100, 1000), 'n_ws': 4, 'n_raw': 2}
+    merge(ck, run_pipeline('C13', tier, gen_grammars('C13', tier, 128 if q else 1500, 'context'), cfg))
+    ck.cov['rule'] = ('grammars mixing >= and >>= functors (and some with none); context categories lvalue, const lvalue, rvalue temporary, move-only lvalue; each contextual functor logs whether it '
+                      'received the caller\'s object (address), its constness and the number of calls the object has seen, and bumps it; after the call the caller\'s counter must equal the number of '
+                      'contextual reductions in the reference derivation; context copy/move counters must stay 0; parse and context_parse are compared on grammars that ignore the context; '
+                      'distinct_nontrivial = distinct (grammar,input,category) with >= 2 contextual reductions')
+    ck.assumptions += REF_ASSUME
+    return ck.finish(floor_events=1000)
 
 def replay(prop, path):
     rep = json.load(open(path))
